@@ -1,0 +1,17 @@
+//go:build verif
+
+package channel
+
+// Thin exported wrappers around unexported pure functions, for differential testing by the
+// verification harness. Compiled in only with the "verif" build tag.
+
+// VerifProcessReadBuf exposes processReadBuf.
+func VerifProcessReadBuf(rb []byte, searchDepth int) []byte { return processReadBuf(rb, searchDepth) }
+
+// VerifSearchDepth exposes getProcessReadBufSearchDepth.
+func VerifSearchDepth(promptSearchDepth, inputLen int) int {
+	return getProcessReadBufSearchDepth(promptSearchDepth, inputLen)
+}
+
+// VerifProcessOut exposes Channel.processOut.
+func (c *Channel) VerifProcessOut(b []byte, strip bool) []byte { return c.processOut(b, strip) }
